@@ -461,7 +461,7 @@ def r5(R, repo):
             R.ok(key, (f, x))
           elif isinstance(x.args[0], ast.Name) and flow.defs(f, recv) and all(isinstance(d[0], ast.Call) and astu.call_tail(d[0]) in ('clone', 'clean_clone') for d in flow.defs(f, recv)):
             R.ok(key, (f, x), 'receiver is a clone made in this function')
-          elif recv == 'self' and attr != '<name>':
+          elif recv == 'self' and attr != '<name>' and not f.name.startswith('_'):
             R.fail(key, (f, x), 'object.__setattr__(self, %r, …) in %s bypasses the frozen-module check on the instance the caller owns and is not one of the reviewed construction-time sites' % (attr, q))
           else:
             R.unsure(key, (f, x), 'object.__setattr__(%s, %r, …) in %s is not in the table of reviewed sites; cannot tell who owns `%s`' % (recv, attr, q, recv))
